@@ -24,6 +24,8 @@ func main() {
 		cmdAudit(os.Args[2:])
 	case "implscan":
 		cmdImplScan(os.Args[2:])
+	case "memfs-selfcheck":
+		cmdMemfsSelfcheck(os.Args[2:])
 	case "locals":
 		cmdLocals(os.Args[2:])
 	default:
@@ -214,4 +216,62 @@ func explainWidth() int {
 		}
 	}
 	return 160
+}
+
+// cmdMemfsSelfcheck: developer command - runs the memfs replay adapter on every ensures clause of the namespace
+// operations on the given tree. On a tree where the contracts hold every clause must come back not-reproduced
+// (or not-replayable): a "confirmed" is a bug of the adapter's runtime or a defect of the tree.
+func cmdMemfsSelfcheck(args []string) {
+	fs := flag.NewFlagSet("memfs-selfcheck", flag.ExitOnError)
+	repo := fs.String("repo", "/repo", "repository")
+	out := fs.String("out", "/verif/out/memfs-selfcheck", "output dir")
+	only := fs.String("fn", "", "only this operation")
+	fs.Parse(args)
+	eng, err := loadEngine(*repo)
+	if err != nil {
+		fmt.Fprintln(os.Stderr, err)
+		os.Exit(2)
+	}
+	os.MkdirAll(*out, 0o755)
+	bad := 0
+	for _, op := range sortedKeys(memfsOps) {
+		if *only != "" && *only != op {
+			continue
+		}
+		key := "github.com/hack-pad/hackpadfs/keyvalue.(*FS)." + op
+		c := eng.cs.Funcs[key]
+		if c == nil {
+			continue
+		}
+		for _, en := range c.Ensures {
+			o := &Obligation{Fn: calleeShort(key), Kind: "post." + en.Label}
+			v, outp, _ := replayMemFS(eng, &FuncResult{Key: key}, oblResult{o: o, r: &SolveResult{}}, *out)
+			line := ""
+			for _, l := range strings.Split(outp, "\n") {
+				if strings.Contains(l, "GOVC-REPLAY") || strings.Contains(l, "replay translation") {
+					line = l
+				}
+			}
+			if v == "not-replayable" && line == "" {
+				ls := strings.Split(strings.TrimSpace(outp), "\n")
+				if len(ls) > 0 {
+					line = ls[0]
+				}
+			}
+			fmt.Printf("%-10s %-28s %-16s %s\n", op, en.Label, v, truncate(line, 220))
+			if v == "confirmed" {
+				bad++
+			}
+		}
+	}
+	if bad > 0 {
+		os.Exit(1)
+	}
+}
+
+func truncate(s string, n int) string {
+	if len(s) > n {
+		return s[:n]
+	}
+	return s
 }
